@@ -17,8 +17,13 @@ def scripts(rng, tier):
     for k in range(n):
         ssrc = rng.randrange(2, 1 << 32)
         p = rand_policy(rng, ssrc=ssrc, valid=True)
-        L = [p.line(1), "create 1 1", "create 2 1"]
-        if rng.random() < 0.3:
+        wild = rng.random() < 0.35
+        if wild:
+            # wildcard policies on both sides: the working streams are clones of the template
+            L = [p.line(1, ssrc_type=SSRC_ANY_OUT), p.line(2, ssrc_type=SSRC_ANY_IN), "create 1 1", "create 2 2"]
+        else:
+            L = [p.line(1), "create 1 1", "create 2 1"]
+        if not wild and rng.random() < 0.3:
             st = rng.choice([100, 0x10000, 0x7ffffff0])
             L.append(f"poke_rtcp 1 0 {H(ssrc)} {H(st)}")
         for i in range(8 if tier == "quick" else 30):
